@@ -12,7 +12,8 @@ RULE = ('1..4 probes with different channel counts (>= 2) and template counts (>
         'the model exactly in quarter units, and - every third case - coordinates in FINE UNITS (nm instead of um: each site '
         'off the nominal grid by a few units) of every magnitude up to the largest at which the stored dtype and the '
         'arithmetic of the merge are exact: 2**19 for single precision files, 2**16 / 2**31 / 2**32 for uint16 / int32 / '
-        'uint32 files, 2**47 for int64 / float64 files - integer files beyond 2**24 need every bit of a double), index tables (incl. tables of different widths across probes: min(3, n) wide) of '
+        'uint32 files, 2**47 for int64 / float64 files - integer files beyond 2**24 need every bit of a double; in half of these cases the positions dtype is drawn PER PROBE '
+        '(float32 / float64 / integer files mixed, each probe in a unit of its own: the merge is exact in double precision only)), index tables (incl. tables of different widths across probes: min(3, n) wide) of '
         'int32/int64/uint32, whitening / inverse whitening / similarity matrices in all, some or none of the probes '
         '(written or skipped as Lean mergeOptional decides); every template cell is a distinct token. One case = one '
         'real Merger.merge(), also run through the Lean file-system model of the whole merge; every fourth case uses '
@@ -163,25 +164,53 @@ COORD_LIMIT = dict(float32=2 ** 24 // 32, float64=2 ** 53 // 64, int64=2 ** 53 /
                    uint32=2 ** 32 - 1, uint16=2 ** 16 - 1)
 
 
-def fine_units(case, rng):
+POS_DTYPES = ('float64', 'float32', 'int32', 'uint32', 'int64', 'uint16')
+
+
+def fine_units(case, rng, mixed=False):
     """The probes' coordinates re-expressed in a finer unit (u units per um, u drawn so that the largest coordinate takes
     any number of bits up to COORD_LIMIT of the stored dtype), every site off the nominal grid by a few units: the
     geometry is the same picture, the numbers need up to every bit of the mantissa. Probes whose channels share one x
-    still do."""
+    still do.
+
+    mixed (>= 2 probes): the probes were written by different tools - channel_positions.npy in a floating or integer
+    dtype drawn PER PROBE (at least two different ones), each probe in a unit of its own (nm next to um). Coordinates of
+    different precisions have one exact merge only in the widest of them (double precision as soon as two dtypes
+    differ), so a single precision probe may hold anything single precision stores exactly (24 bits)."""
     P = case['probes']
-    lim = COORD_LIMIT[P[0]['dtypes'].get('channel_positions', 'float64')]
-    top = int(max(v for p in P for xy in p['channel_positions'] for v in xy)) + 1
-    nb = rng.randrange(min(17, lim.bit_length() - 3), lim.bit_length() + 1)       # the largest coordinate has ~nb bits
-    u = rng.randrange(2 ** (nb - 1), min(2 ** nb, lim + 1)) // top
-    if u < 2 or any(v != int(v) for p in P for xy in p['channel_positions'] for v in xy):
+    if any(v != int(v) for p in P for xy in p['channel_positions'] for v in xy):
         return case
-    for p in P:
-        one_x = len({x for x, y in p['channel_positions']}) == 1
-        jx = rng.randrange(min(u, 50))
-        p['channel_positions'] = [[float(int(x) * u + (jx if one_x else rng.randrange(min(u, 50)))),
-                                   float(int(y) * u + rng.randrange(min(u, 50)))] for x, y in p['channel_positions']]
-    case['fine_units'] = u
+    mixed = mixed and len(P) > 1
+    if mixed:
+        dts = [rng.pick(POS_DTYPES) for _ in P]
+        while len(set(dts)) < 2:
+            dts[rng.randrange(len(P))] = rng.pick(POS_DTYPES)
+        for p, dt in zip(P, dts):
+            p['dtypes'] = dict(p['dtypes'], channel_positions=dt)
+    lims = [2 ** 24 if mixed and p['dtypes']['channel_positions'] == 'float32'
+            else COORD_LIMIT[p['dtypes'].get('channel_positions', 'float64')] for p in P]
+    groups = [[k] for k in range(len(P))] if mixed else [list(range(len(P)))]        # probes sharing one unit
+    us = []
+    for g in groups:
+        lim = min(lims[k] for k in g)
+        top = int(max(v for k in g for xy in P[k]['channel_positions'] for v in xy)) + 1
+        nb = rng.randrange(min(17, lim.bit_length() - 3), lim.bit_length() + 1)       # the largest coordinate has ~nb bits
+        u = max(1, rng.randrange(2 ** (nb - 1), min(2 ** nb, lim + 1)) // top)
+        if u < 2 and not mixed:
+            return case
+        us.append(u)
+        for k in g:
+            p = P[k]
+            one_x = len({x for x, y in p['channel_positions']}) == 1
+            jx = rng.randrange(min(u, 50))
+            p['channel_positions'] = [[float(int(x) * u + (jx if one_x else rng.randrange(min(u, 50)))),
+                                       float(int(y) * u + rng.randrange(min(u, 50)))] for x, y in p['channel_positions']]
+    case['fine_units'] = us if mixed else us[0]
     return case
+
+
+def pos_dtypes(case):
+    return [(p.get('dtypes') or {}).get('channel_positions', 'float64') for p in case['probes']]
 
 
 def coord_bits(case):
@@ -209,9 +238,14 @@ def tally(rep, case, impl_res, ans):
     rep.count('largest coordinate: ' + ('<= 8 bits' if nb <= 8 else '9..16 bits' if nb <= 16 else '17..24 bits' if nb <= 24
                                          else '25..32 bits (beyond single precision)' if nb <= 32
                                          else '33..47 bits (beyond single precision)'))
-    if nb > 24 and 'int' in (case['probes'][0].get('dtypes') or {}).get('channel_positions', 'float64'):
+    if nb > 24 and any('int' in dt for dt in pos_dtypes(case)):
         rep.count('integer-stored coordinates that need more than the 24 bits of single precision')
-    rep.count('positions_dtype:' + (case['probes'][0].get('dtypes') or {}).get('channel_positions', 'float64'))
+    for dt in pos_dtypes(case):
+        rep.count('positions_dtype:' + dt)
+    if len(set(pos_dtypes(case))) > 1:
+        rep.count('positions dtype differs across probes (mixed precisions / integer and floating files)')
+        if any(dt == 'float32' and k > 0 for k, dt in enumerate(pos_dtypes(case))):
+            rep.count('a single precision probe translated after other probes of another dtype')
     P = case['probes']
     if len({len(p['channel_map']) for p in P}) > 1:
         rep.count('different_channel_counts')
@@ -253,7 +287,7 @@ def classify(case, impl_res, ans, why):
     else:
         single_x = any(one_x)
     return dict(kind=why.split(':')[0], site=site, nprobes_ge3=len(P) >= 3, ragged_tables=ragged_tables(case),
-                single_x=single_x,
+                single_x=single_x, mixed_position_dtypes=len(set(pos_dtypes(case))) > 1,
                 uint_ind=any('uint' in p['dtypes']['pc_feature_ind'] or 'uint' in p['dtypes']['template_feature_ind'] for p in P),
                 raised=impl_res.get('raised'), where=impl_res.get('where'),
                 # what the exception says, independent of line numbers: np.concatenate refusing arrays of different widths
@@ -271,6 +305,11 @@ def shrink(case):
             c = F.drop_probe(case, i)
             if c is not None:
                 yield c
+    for k, p in enumerate(P):
+        # coordinates are integers below 2**47 in the fine-unit cases: double precision holds them whatever the file's dtype
+        if case.get('fine_units') and p['dtypes'].get('channel_positions', 'float64') != 'float64':
+            q = dict(p); q['dtypes'] = dict(p['dtypes'], channel_positions='float64')
+            yield dict(case, probes=P[:k] + [q] + P[k + 1:])
     for k, p in enumerate(P):
         for key in ('pc_feature_ind', 'template_feature_ind'):
             if p['dtypes'][key] != 'int64':
@@ -305,7 +344,7 @@ def gen(tier, rng):
                 dx = rng.randrange(4) / 4.
                 p['channel_positions'] = [[x + dx, y + rng.randrange(4) / 4.] for x, y in p['channel_positions']]
         if i % 3 == 2:
-            fine_units(case, rng)
+            fine_units(case, rng, mixed=(i // 3) % 2 == 0)
         if i % 6 in (2, 5):
             # inverse whitening matrices stored in all (block-diagonal merge) or only some probes (skipped by the
             # merger, computed by the final load); tokens: the whitening tokens + 500000
